@@ -190,6 +190,8 @@ var c16Ops = []string{"=", "!=", "<", "<=", ">", ">="}
 var c16Pool = []string{
 	"1", "01", "1.0", "1.230", "1.23", "1.2301", "-1", "+1", "10", "9", "0", "-0", "0.0", "100", "99.99", "123456789012345678", "123456789012345679",
 	"abc", "ABC", " abc ", "abd", "ab", "", " ", "a b", "a  b", "John Smith", "  john SMITH ", "John  Smith", "Jon", "John", "Z", "a", "é", "É", "10a", "a10", "1 0",
+	// letters for which lower-casing, upper-casing and case folding disagree
+	"ΣΟΦΟΣ", "σοφος", "σοφοσ", "ſ", "s", "İzmir", "izmir", "i̇zmir", "µ", "μ", "ß", "ss", "\u212A", "k",
 	"1e5", "100000", "0x10", "16", "inf", "-inf", "Inf", "infinity", "nan", "NaN", "1_0", ".5", "0.5", "5.", "5", "1,5", "+", "-", "1.2.3", "true", "false", "<nil>",
 }
 
@@ -658,7 +660,7 @@ func init() {
 		Title:   "Query results equal what the Go API gives",
 		Cases:   func(tier string, seed uint64) int { return c16OpCases() + c16N(tier) },
 		Run:     c16Run,
-		Rule: "(1) exhaustive operand pairs: every ordered pair from a pool of 59 numeric/text/mixed/grey-zone values under all six operators, evaluated as a real query; reference = numeric comparison iff both operands are plain decimals, case-insensitive trimmed text comparison iff an operand is not a float at all, otherwise only the laws (!= negates =, exactly one of < = >, <= and >= are the unions). " +
+		Rule: "(1) exhaustive operand pairs: every ordered pair from a pool of ~70 numeric/text/mixed/grey-zone values (incl. letters for which lower-casing and case folding disagree) under all six operators, evaluated as a real query; reference = numeric comparison iff both operands are plain decimals, case-insensitive trimmed text comparison iff an operand is not a float at all, otherwise only the laws (!= negates =, exactly one of < = >, <= and >= are the unions). " +
 			"(2) typed generator: well-typed pipelines of up to 4 stages over a hand-written table of ~50 accessors on Document/Individual/Family/Name/Sex/Date/Husband/Wife/Child/Node, First/Last with n in 0..4 and 1000, Length, Only with scalar conditions, Combine, NodesWithTagPath, objects, each with a Go closure computing the expected value through the API; compared JSON-normalised on documents of 0, 1, 3 and ~20 people. " +
 			"(3) metamorphic laws without reference: variable inlining, Combine(E,E)|Length = 2x, Only(p)/Only(not p) partition in order, First(n)++Last(len-n) = E, First(n)|Length = min(n,len), determinism (re-evaluation, fresh engine, fresh decode). non-trivial = query evaluated to a non-empty value; distinct by query text + document",
 		Floors: func(a *fw.Agg, tier string) []string {
